@@ -19,7 +19,7 @@ NOT_DECIDED = ("Logical entailment over all zones and NSEC subsets, and complete
 ASSUMPTIONS = ["FULL feature configuration (dnssec-ring)", "Name's Ord is RFC 4034 6.1 canonical order (C04)"]
 
 N = 'hickory_net::dnssec::'
-DIRECT = r"<Iter<'a;T> as Iterator>::find\(slice::iter\(arg5\),closure:dnssec::verify_nsec::\{closure#1\}\)"
+DIRECT = r"<Iter<'a;T> as Iterator>::find\(slice::iter\(arg5\),closure:dnssec::verify_nsec::\{closure@find#0\}\)"
 COVQ = r'dnssec::find_nsec_covering_record\(arg2,arg1\.name,arg5\)'
 WILD = r'Name::prepend_label\(.*,lit:"\*"\)'
 
@@ -27,7 +27,7 @@ WILD = r'Name::prepend_label\(.*,lit:"\*"\)'
 def run(cx):
     f = cx.fn('C08.G1', N + 'verify_nsec')
     if f:
-        ys = cx.calls(f, r'dnssec::verify_nsec::\{closure#0\}$')
+        ys = cx.calls(f, r'dnssec::verify_nsec::\{closure@val#0\}$')
         sec = [s for s in ys if 'Proof::Secure' in s.term]
         cx.check('C08.G1', len(sec) == 4, f.path, 'yields', 'secure-origin-count', f'{len(sec)} Secure yields, 4 reviewed: ' + '; '.join(s.loc for s in sec))
         common = {'rcode-supported': r'^eq:ResponseCode\(ResponseCode::(NoError|NXDomain),arg3\)$'}
@@ -65,10 +65,10 @@ def run(cx):
         cx.guard('C08.G1', wn, {
             'no-direct-match': rf'^!ok\({DIRECT}\)$',
             'qname-covered': rf'^ok\({COVQ}\)$',
-            'wildcard-not-covered-but-matched': r"^<Iter<'a;T> as Iterator>::any\(slice::iter\(arg5\),closure:dnssec::verify_nsec::\{closure#8\}\)$",
+            'wildcard-not-covered-but-matched': r"^<Iter<'a;T> as Iterator>::any\(slice::iter\(arg5\),closure:dnssec::verify_nsec::\{closure@any#0\}\)$",
             'rcode-NoError': r'^eq:ResponseCode\(ResponseCode::NoError,arg3\)$',
             'no-answer': r'^slice::is_empty\(arg4\)$'}, expect=1, fn=f)
-    c8 = cx.fn('C08.G1', N + 'verify_nsec::{closure#8}')
+    c8 = cx.fn('C08.G1', N + 'verify_nsec::{closure@any#0}')
     if c8:
         t = cx.true_returns(c8)
         cx.guard('C08.G1', t, {
@@ -77,13 +77,13 @@ def run(cx):
             'cname-bit-clear': r'^!RecordTypeSet::contains\(NSEC::type_set\(arg2\.1\),RecordType::CNAME\)$',
             'no-closer-matches': r'^dnssec::no_closer_matches\(\^arg1\.name,\^arg2,\^arg5,'}, fn=c8)
         cx.check('C08.G1', len(t) >= 1, c8.path, 'ret', 'true-return-present', str(len(t)))
-    c1 = cx.fn('C08.G1', N + 'verify_nsec::{closure#1}')
+    c1 = cx.fn('C08.G1', N + 'verify_nsec::{closure@find#0}')
     if c1:
         t = cx.true_returns(c1)
         cx.check('C08.G1', len(t) == 1 and bool(re.search(r'^eq:Name\(\^arg1\.name,arg2\.0\)$', t[0].term)), c1.path, 'ret',
                  'direct-match-is-name-equality', '; '.join(s.term for s in t))
     # wildcard base name selection from answers: Secure RRSIG, fewer labels than owner and qname, encloses qname
-    c2 = cx.fn('C08.G1', N + 'verify_nsec::{closure#2}')
+    c2 = cx.fn('C08.G1', N + 'verify_nsec::{closure@filter_map#0}')
     if c2:
         some = cx.returns(c2, r'^Option::Some\(')
         cx.guard('C08.G1', some, {
@@ -93,7 +93,7 @@ def run(cx):
             'encloses-qname': r'^Name::zone_of\(Name::trim_to\(arg2\.name,.*\),\^arg1\.name\)$'}, expect=1, fn=c2)
 
     # ------------------------------------------------------------ G2 cover test
-    c = cx.fn('C08.G2', N + 'find_nsec_covering_record::{closure#0}')
+    c = cx.fn('C08.G2', N + 'find_nsec_covering_record::{closure@find#0}')
     if c:
         t = cx.true_returns(c)
         cx.guard('C08.G2', t, {
@@ -129,9 +129,9 @@ def run(cx):
         oks = cx.returns(v, r'^Result::Ok\(')
         plain = [s for s in oks if cx.has_guard(s, r'^!Vec::is_empty\(.*\.answers\)$')]
         cx.guard('C08.P1', plain, {'no-wildcard-rrsig-in-answers':
-                 r'^!Iterator::any\(HashMap::iter\(await\(DnssecDnsHandle::verify_rrsets\(.*\.answers\).*\)\)@Ready\.0\),closure:DnssecDnsHandle::verify_response::\{closure#0\}::\{closure#0\}\)$'},
+                 r'^!Iterator::any\(HashMap::iter\(await\(DnssecDnsHandle::verify_rrsets\(.*\.answers\).*\)\)@Ready\.0\),closure:DnssecDnsHandle::verify_response::\{closure#0\}::\{closure@any#0\}\)$'},
                  expect=1, fn=v)
-    w = cx.fn('C08.P1', N + 'DnssecDnsHandle::verify_response::{closure#0}::{closure#0}')
+    w = cx.fn('C08.P1', N + 'DnssecDnsHandle::verify_response::{closure#0}::{closure@any#0}')
     if w:
         t = cx.true_returns(w)
         cx.guard('C08.P1', t, {'secure-outcome': r'^is\(arg2\.1\.outcome,Secure\)$',
